@@ -42,7 +42,7 @@ structure ImgHdr where
 /-- greedy LZ77 parse of the encoded ICC bytes (`dist_multiplier = 0`, distance = value + 1).
 `overlong`: a copy from the very first symbol is written with a distance larger than the number
 of symbols decoded so far (legal: the decoder clamps it to "from symbol 0"). -/
-def iccLzItems (overlong : Bool) (data : Array Nat) : List Item :=
+def iccLzItemsExact (overlong : Bool) (data : Array Nat) : List Item :=
   let ctxAt := fun (i : Nat) =>
     Jxl.Icc.getIccCtx i (if i ≥ 1 then data.getD (i - 1) 0 else 0) (if i ≥ 2 then data.getD (i - 2) 0 else 0)
   let rec go (fuel i : Nat) : List Item :=
@@ -61,10 +61,19 @@ def iccLzItems (overlong : Bool) (data : Array Nat) : List Item :=
         else .lit (ctxAt i) (data.getD i 0) :: go fuel (i + 1)
   go (data.size + 1) 0
 
+/-- `overrun > 0`: a final copy is written `overrun` symbols longer than the stream needs (legal: the
+reader asks for `enc_size` symbols and stops inside the copy; all its tokens were read when it began). -/
+def iccLzItems (overlong : Bool) (overrun : Nat) (data : Array Nat) : List Item :=
+  let items := iccLzItemsExact overlong data
+  match items.reverse with
+  | .copy c len d :: rest => (.copy c (len + overrun) d :: rest).reverse
+  | _ => items
+
 /-- the ICC part of the codestream (`read_icc`, jxl-color/src/icc/decode.rs): `enc_size` as U64,
 an entropy-coded stream of `enc_size` bytes over 41 contexts chosen by `get_icc_ctx`.
 `encoded` is the output of the ICC command encoder (`Jxl.Icc.encodeIcc`).
-`coder`: 0 prefix · 1 ANS · 2/3 the same with LZ77 · 4/5 LZ77 with over-long distances.
+`coder`: 0 prefix · 1 ANS · 2/3 the same with LZ77 · 4/5 LZ77 with over-long distances · 6/7 LZ77 whose
+final copy runs past `enc_size`.
 Falls back to the plain form when the LZ77 plan cannot express the items. -/
 def iccStreamBits (coder : Nat) (encoded : List Nat) : List Bool :=
   let w0 : BW := #[]
@@ -78,10 +87,10 @@ def iccStreamBits (coder : Nat) (encoded : List Nat) : List Bool :=
   let plainBits := (w.bits (encodeHeader plainPlan ++ encodeItems plainPlan plain)).toList
   if coder < 2 then plainBits
   else
-    let items := iccLzItems (coder ≥ 4) encoded.toArray
+    let items := iccLzItems (coder == 4 || coder == 5) (if coder ≥ 6 then 1 + encoded.length % 9 else 0) encoded.toArray
     let lz : Jxl.Entropy.Lz77Params := { minSymbol := 224, minLength := 3, lenConf := ⟨0, 0, 0⟩ }
     let plan := (autoPlan kind 41 (some lz)).resolve items
-    if plan.check items ∧ expandItems 0 items == encoded then
+    if plan.check items ∧ (expandItems 0 items).take encoded.length == encoded then
       (w.bits (encodeHeader plan ++ encodeItems plan items)).toList
     else plainBits
 
